@@ -143,10 +143,25 @@ def access(ctx):
     fa, S, e = ret_expr(E, p)
     ok = e[0] == "call" and short(e[1]) == "new" and e[2][0] == ("ap", AP(("arg", 1)))
     if ok:
-        x = e[2][1]
-        ok = x[0] == "binop" and x[1] == "Sub" and x[3] == ("const", 1) and x[2][0] == "binop" and \
-            x[2][1] == "Sub" and x[2][3] == ("ap", AP(("arg", 2))) and x[2][2][0] == "call" and \
-            short(x[2][2][1]) == "num_tokens"
+        # the index is  num_tokens() - i - 1  in any association or order of the operations
+        def lin(x, sign, acc):
+            x = strip_casts(x)
+            if x[0] == "proj" and x[2] and x[2][0] in ("#0", 0):
+                x = strip_casts(x[1])
+            if x[0] == "binop" and x[1] in ("Add", "AddWithOverflow", "Sub", "SubWithOverflow"):
+                lin(x[2], sign, acc)
+                lin(x[3], sign if x[1].startswith("Add") else -sign, acc)
+            elif x[0] == "const" and isinstance(x[1], int):
+                acc["#"] = acc.get("#", 0) + sign * x[1]
+            elif x == ("ap", AP(("arg", 2))):
+                acc["i"] = acc.get("i", 0) + sign
+            elif x[0] == "call" and short(x[1]) in ("num_tokens", "len"):
+                acc["n"] = acc.get("n", 0) + sign
+            else:
+                acc["?"] = acc.get("?", 0) + 1
+        acc = {}
+        lin(e[2][1], 1, acc)
+        ok = acc == {"n": 1, "i": -1, "#": -1}
     chk("Worker::token|reverse-index", ok, fn_loc(crate, p),
         "token(i) addresses slot num_tokens - i - 1 (the result list is stored EOS to BOS)",
         "token(i) addresses %s" % show(e))
